@@ -306,6 +306,15 @@ def check_scorer(ctx, pkg, name, width, inner, mode):
             ok_sd = signed_guard or (bool(casts) and not unsigned_diff)
             where = (unsigned_diff[0].loc() if unsigned_diff else (diffs[0].loc() if diffs else loc))
             ctx.check(ok_sd, "C13.c CHECK-COMPLETE", f"{name}|{mode}|signed-differences", where, "the spacing of the cuts is tested on signed differences (a cast to a signed integer type before the differences are taken, or a signed-integer dtype test): unsigned cuts cannot wrap around", found=("np.diff of the cuts as given (their dtype may be unsigned)" if unsigned_diff else ("no cast to a signed type before the spacing test" if not casts else "signed")), expected="np.diff(cuts.astype(np.int64, copy=False), axis=1) or np.issubdtype(cuts.dtype, np.signedinteger)")
+        # the kernels do signed arithmetic on the cuts (-n, n * log(...), differences): what they receive is of a signed
+        # integer type - the dtype test demands it, or the validated cuts are cast to one on the way (finding F-25: valid
+        # unsigned cuts were scored with wrapped-around lengths)
+        for p in reach[:1]:
+            signed_guard = any("signedinteger" in c.key for c, v in both_polarities(p.facts) if "issubdtype" in c.key)
+            ke_ = [e for e in p.events if e.kind == "kernel_enter"]
+            kc = ke_[0].data.get("cuts") if ke_ else None
+            ok_k = signed_guard or (isinstance(kc, Num) and kc.meta.get("signed") is True)
+            ctx.check(ok_k, "C13.c CHECK-COMPLETE", f"{name}|{mode}|kernel-dtype-signed", ke_[0].loc() if ke_ else loc, "the cuts handed to the kernel are of a signed integer type (cast after validation, or a signed-integer dtype test): unsigned cuts cannot wrap around in the kernel's arithmetic", found=("signed" if ok_k else "the validated cuts are handed on in their own dtype (may be unsigned)"), expected="self._evaluate(cuts.astype(np.int64, copy=False)) or np.issubdtype(cuts.dtype, np.signedinteger)")
         for l, e in early.items():
             ctx.violation("C13.c CHECK-COMPLETE", f"{name}|{mode}|cast-before-dtype-check", l, "the cuts are converted to an integer (or caller-independent) dtype before their own dtype has been tested: fractional cuts are truncated and scored silently", found=f"{e.data['how']} to {e.data['dtype'] or 'a computed dtype'}: {norm_src(e.node)[:80]}", expected="np.issubdtype(cuts.dtype, np.integer) established first")
         firedw = [p for p in paths if p.outcome == "raise" and any(wd(c) for c, v in both_polarities(p.facts)) and p.exc.func is not None and "check_cuts" in p.exc.func.name]
